@@ -309,7 +309,16 @@ def prepare_dump(data: IOData, allow_changes: bool, filename: str) -> IOData:
     if data.mo.kind == "generalized":
         raise PrepareDumpError("Cannot write Molekel file with generalized orbitals.", filename)
     data = prepare_unrestricted_aminusb(data, allow_changes, filename, "Molekel")
-    return prepare_segmented(data, False, allow_changes, filename, "Molekel")
+    data = prepare_segmented(data, False, allow_changes, filename, "Molekel")
+    # Reject unsupported shells here, before dump_one opens (and truncates) the file.
+    for shell in data.obasis.shells:
+        for angmom, kind in zip(shell.angmoms, shell.kinds):
+            if (angmom, kind) not in CONVENTIONS:
+                raise PrepareDumpError(
+                    f"The Molekel format does not support shells with angmom={angmom} and kind='{kind}'.",
+                    filename,
+                )
+    return data
 
 
 @document_dump_one("Molekel", ["atcoords", "atnums", "mo", "obasis"], ["atcharges"])
